@@ -22,7 +22,7 @@ func Rng(seed int64, prop string, c int) *rand.Rand {
 func Pick[T any](r *rand.Rand, xs []T) T { return xs[r.Intn(len(xs))] }
 
 // HostileKeys are near-colliding key strings (the implementation joins renderings with '.').
-var HostileKeys = []string{"a", "a.b", "b", "b.c", "a.", ".", "a.b.c", "ab", "A", "a ", "c", "1", "10", "9", "b.", ".c", "a..b"}
+var HostileKeys = []string{"a", "a.b", "b", "b.c", "a.", ".", "a.b.c", "ab", "A", "a ", "c", "1", "10", "9", "b.", ".c", "a..b", "\\", "a\\", "a\\.b", ".b", "\\.", "a\\\\"}
 
 // SortKeys are sort-key strings that are prefixes of one another / order traps.
 var SortKeys = []string{"1", "10", "9", "a", "ab", "abc", "b", "", "B", "a.b", "."}
@@ -291,7 +291,11 @@ func (g *CondGen) Leaf() *refmodel.Cond {
 		n := 1 + r.Intn(3)
 		args := []refmodel.Operand{g.pathOp()}
 		for i := 0; i < n; i++ {
-			args = append(args, g.newVal(Value(r, 0, g.Opts)))
+			if r.Intn(4) == 0 {
+				args = append(args, g.pathOp()) // a member given as a path
+			} else {
+				args = append(args, g.newVal(Value(r, 0, g.Opts)))
+			}
 		}
 		return &refmodel.Cond{Op: "in", Args: args}
 	case 6:
@@ -302,7 +306,10 @@ func (g *CondGen) Leaf() *refmodel.Cond {
 		k := Pick(r, []val.Kind{val.KS, val.KS, val.KB})
 		return &refmodel.Cond{Op: "begins", Args: []refmodel.Operand{g.pathOp(), g.newVal(Scalar(r, k, g.Opts))}}
 	default:
-		return &refmodel.Cond{Op: "contains", Args: []refmodel.Operand{g.pathOp(), g.newVal(Scalar(r, Pick(r, []val.Kind{val.KS, val.KN, val.KB}), g.Opts))}}
+		if r.Intn(4) == 0 {
+			return &refmodel.Cond{Op: "contains", Args: []refmodel.Operand{g.pathOp(), g.pathOp()}}
+		}
+		return &refmodel.Cond{Op: "contains", Args: []refmodel.Operand{g.pathOp(), g.newVal(Scalar(r, Pick(r, []val.Kind{val.KS, val.KN, val.KB, val.KNULL, val.KBOOL}), g.Opts))}}
 	}
 }
 
